@@ -1,0 +1,20 @@
+//go:build !verif
+// +build !verif
+
+package optracker
+
+// Verification hooks are compiled out: see verif_on.go (build tag "verif").
+
+type verifOpData struct{}
+
+type verifOptData struct{}
+
+func verifOp(op *Operation, ev string) {}
+
+func verifCancel(op *Operation) {}
+
+func verifOpt(opt *OperationTracker, ev string, op *Operation, typ OperationType, ph Phase) {}
+
+func verifNew(opt *OperationTracker, op2, old *Operation) {}
+
+func verifClean(opt *OperationTracker, op, found *Operation, ok bool) {}
